@@ -140,6 +140,17 @@ CLAIMED = {
          "weights (suspected defect: it carries only the last weight's), releaseTasks' per-task accounting, cancelCallsPendingAwait's loops, the "
          "failure tail of CreateEnvironment. grpc status: New(code).Err() != nil for code != OK is an assumed contract.",
          "DESIGN.md §6 C06"),
+ "C12": ("Proof obligations for all paths: Servent.ProcessResponse looks up and deletes exactly the pending entry keyed by (the reply's command id, "
+         "its sender), writes the reply only into the call found there and signals only a found call - unknown, late or duplicate replies touch "
+         "nothing; Servent.RunCommand registers exactly (command id, receiver) before calling SendFunc with this command and receiver, and removes "
+         "exactly that key on a send error (returning the error and no response) and on timeout; CommandQueue.commit spawns one goroutine per target "
+         "(loop invariant), each of which makes the single-target copy for ITS receiver, runs it once and posts exactly one result carrying ITS "
+         "receiver (goroutine frame obligations: no shared write), and the collector receives as many results as goroutines and files each under the "
+         "receiver it carries; consolidateResponses returns nil / the single answer / a multi-response over exactly the collected map.",
+         "'Exactly once within its timeout' as a real-time statement, the race between a timeout and a late reply (Done signalled after the waiter "
+         "left), and queue start/stop are not decided. MakeSingleTarget's per-target argument selection is not yet under contract. Command ids and "
+         "target lists are uninterpreted functions of the message (interface methods assumed deterministic).",
+         "DESIGN.md §6 C12"),
 }
 
 NOT_APPLICABLE = {
